@@ -294,7 +294,11 @@ def main(prop, modname, tier, replay=None):
     extra = {}
     if hasattr(mod, "extra_phase") and not harness_error:
         try:
-            extra = mod.extra_phase(tier, base_seed) or {}
+            import inspect
+            if len(inspect.signature(mod.extra_phase).parameters) >= 3:
+                extra = mod.extra_phase(tier, base_seed, prop) or {}
+            else:
+                extra = mod.extra_phase(tier, base_seed) or {}
             for v in extra.pop("violations", []):
                 agg["violations"].append(v)
         except Exception:
